@@ -61,6 +61,9 @@ def main():
     res["confirmed"] = bool(confirmed)
     if confirmed:
         rc, out = sh("git -C /repo apply %s" % patch)
+        # the evidence file must describe runs against /repo itself: keep the one of the last clean run
+        evf = "/verif/evidence/%s.json" % prop
+        saved = open(evf).read() if os.path.exists(evf) else None
         try:
             rc, out = sh("./check %s quick" % prop, cwd="/verif", timeout=3000)
             ran.append("./check %s quick (with change applied to /repo): rc=%d" % (prop, rc))
@@ -71,6 +74,8 @@ def main():
         finally:
             sh("git -C /repo checkout -- .")
             sh("git -C /repo status --short")
+            if saved is not None:
+                open(evf, "w").write(saved)
     res["ran"] = ran
     meta_path = os.path.join(dst, "meta.json")
     try:
